@@ -31,7 +31,7 @@
 From MptV Require Import Base.Mem C06.Gen_Types C06.TypesModel C06.TypesFacts
   C06.TypesChunks C06.TypesInv C06.TypesProps C06.TypesHistory
   C06.RegistrySpec C06.RegistryAbs C06.RegistryMaps C06.RegistryLookup C06.RegistryRefine
-  C06.RegistryProps C06.RegistryCorollaries.
+  C06.RegistryProps C06.RegistryCorollaries C06.RegistryFini.
 
 (* outputs of a history are the outputs of its prefix followed by those of the
    rest run from the state the prefix leaves *)
@@ -219,6 +219,27 @@ Theorem C06_builtins_exactly_listed :
      exists t, type_traits (exec reg0 ops) id = Ok (Some t) /\ ti_size t = sz).
 Proof. exact builtins_exactly_listed. Qed.
 
+(* ---- the C++ wrappers (mpt++/type_traits_wrap.cpp) and process exit ---- *)
+
+(* type_traits::get(int) converts its int to the uintptr_t id of mpt_type_traits: for every int it
+   is mpt_type_traits of that value when it is non-negative and finds nothing when it is negative
+   (the sign-extended value lies above every id range); OpWrapTraits is one of the operations of
+   C06_step_refines_spec.  The other five wrappers forward their arguments unchanged. *)
+Theorem C06_cxx_get_transparent : forall r t, inv r ->
+  (- 2 ^ (Z.of_N g_IntBits - 1) <= t < 2 ^ (Z.of_N g_IntBits - 1))%Z ->
+  wrap_traits r t = if (t <? 0)%Z then Ok None else type_traits r (Z.to_N t).
+Proof. exact wrap_transparent. Qed.
+
+(* atexit clean-up: after any history the clean-up releases as many registered interface and
+   metatype entries as identifiers of that kind were handed out (the ids of a kind are
+   first .. counter-1), and one block per generic chunk. *)
+Theorem C06_exit_releases_registered : forall ops,
+  let r := exec reg0 ops in
+  fini_counts r = (N.to_nat (s_niface (abs r) - g_InterfaceAdd),
+                   N.to_nat (s_nmeta (abs r) - (g_MetaPtrBase + 1)),
+                   length (r_gen r)).
+Proof. exact fini_counts_history. Qed.
+
 (* ---- non-vacuity ---- *)
 Definition nm_hello : name := [104;101;108;108;111]%N.
 Definition nm_world : name := [119;111;114;108;100]%N.
@@ -306,6 +327,19 @@ Example C06_spec_exhaustion_example :
   snd (sstep (sexec sreg0 (repeat (OpTypeAdd (Some tr8)) 1791)) (OpTypeAdd (Some tr8))) = SId 4095.
 Proof. vm_compute. repeat split; reflexivity. Qed.
 
+(* the C++ lookup: a built-in id, a negative int whose low byte is that id, the smallest int *)
+Example C06_cxx_example :
+  wrap_traits reg0 129 = Ok (Some ptr_traits) /\ wrap_traits reg0 (-127) = Ok None /\
+  wrap_traits reg0 (- 2 ^ 31) = Ok None /\
+  wrap_traits (exec reg0 [OpTypeAdd (Some tr8)]) 2304 = Ok (Some tr8).
+Proof. vm_compute. repeat split; reflexivity. Qed.
+
+Example C06_exit_example :
+  fini_counts (exec reg0 [OpIfaceAdd None; OpMetaAdd None; OpMetaAdd (Some nm_hello); OpTypeAdd (Some tr8)]) = (1, 2, 1)%nat /\
+  fini_counts reg0 = (0, 0, 0)%nat /\
+  fini_counts (exec reg0 (repeat (OpTypeAdd (Some tr8)) 31)) = (0, 0, 2)%nat.
+Proof. vm_compute. repeat split; reflexivity. Qed.
+
 Print Assumptions C06_run_exec.
 Print Assumptions C06_ids_unique.
 Print Assumptions C06_issued_fresh.
@@ -330,3 +364,5 @@ Print Assumptions C06_ids_unique_via_spec.
 Print Assumptions C06_ids_in_kind_range_via_spec.
 Print Assumptions C06_lookup_stable_via_spec.
 Print Assumptions C06_builtins_exactly_listed.
+Print Assumptions C06_cxx_get_transparent.
+Print Assumptions C06_exit_releases_registered.
